@@ -14,4 +14,6 @@ CONSTANTS
   BitmapExcludeExact = TRUE
   ProvidersAgree = TRUE
   DeleteDropsPacked = TRUE
+  CgHonoursShallow = TRUE
+  Focus = "all"
 CHECK_DEADLOCK FALSE
